@@ -332,7 +332,12 @@ ALIAS_LINKS = [("[z](|page|/zeta.html)", "page/zeta.html"), ("![p](|media|/pic.p
                ("[s](|page|/sub/index.html)", "page/sub/index.html")]
 
 
-def _convert_pages(order, link_idx):
+# where on the page the link stands: an indented line is not always code (nested list items, continuation paragraphs of a list item)
+PLACEMENTS = [("paragraph", "Text {L} more."), ("nested list item", "Contents:\n\n- top\n    - sub {L}\n    - other\n"),
+              ("second paragraph of a list item", "1. first step\n\n    then see {L} for more.\n\n2. second step\n")]
+
+
+def _convert_pages(order, link_idx, placement=0):
     """real MetaMarkdown built as ford.main builds it; pages converted in the given order of depths; {depth: href/src found}"""
     import re as _re2
     import pathlib as _pl
@@ -344,7 +349,7 @@ def _convert_pages(order, link_idx):
     got = {}
     for dpt in order:
         page_path = out_dir / "page" / DEPTH_DIRS[dpt]
-        html = md.reset().convert("Text " + ALIAS_LINKS[link_idx[dpt]][0] + " more.", path=page_path)
+        html = md.reset().convert(PLACEMENTS[placement][1].replace("{L}", ALIAS_LINKS[link_idx[dpt]][0]), path=page_path)
         m = _re2.search(r"""(?:href|src)=["']([^"']*)["']""", html)
         got[dpt] = m.group(1) if m else None
     return got
@@ -356,10 +361,10 @@ def _alias_expected(dpt, li):
 
 
 def replay_alias(w):
-    got = _convert_pages(w["order"], w["links"])
+    got = _convert_pages(w["order"], w["links"], w.get("placement", 0))
     want = {d: _alias_expected(d, w["links"][d]) for d in w["order"]}
     return {str(k): v for k, v in got.items()} != {str(k): v for k, v in want.items()}, {
-        "conversion order (nesting depths)": w["order"], "link written on each page": [ALIAS_LINKS[i][0] for i in w["links"]],
+        "conversion order (nesting depths)": w["order"], "link stands in": PLACEMENTS[w.get("placement", 0)][0], "link written on each page": [ALIAS_LINKS[i][0] for i in w["links"]],
         "ford": got, "relative path from each page": want}
 
 
@@ -372,7 +377,7 @@ def alias_links(ctx):
     ctx.encode_fn(mk.RelativeLinksTreeProcessor._fix_attrib)
     ctx.encode_fn(mk.RelativeLinksTreeProcessor.run)
     ctx.encode_fn(mk.MetaMarkdown.convert)
-    ctx.bounds.update({"depths": DEPTH_DIRS, "alias links": [a for a, _ in ALIAS_LINKS], "orders": 6})
+    ctx.bounds.update({"depths": DEPTH_DIRS, "alias links": [a for a, _ in ALIAS_LINKS], "orders": 6, "placements": [p_[0] for p_ in PLACEMENTS]})
     ctx.stubs.append("python-markdown needs concrete text: one path per (order, links) combination; MetaMarkdown is the real object")
     import itertools
     orders = [list(p) for p in itertools.permutations(range(3))]
@@ -382,10 +387,11 @@ def alias_links(ctx):
         same = CV.choice(E, "same_link", [True, False]).concretize()
         l0 = CV.choice(E, "l0", list(range(len(ALIAS_LINKS)))).concretize()
         links = [l0, l0, l0] if same else [l0, (l0 + 1) % len(ALIAS_LINKS), (l0 + 2) % len(ALIAS_LINKS)]
-        E.e.snapshot = lambda m: {"order": orders[oi], "links": links}
+        pl = CV.choice(E, "placement", list(range(len(PLACEMENTS)))).concretize()
+        E.e.snapshot = lambda m: {"order": orders[oi], "links": links, "placement": pl}
         from fv import patch as _p
         with _p.suspended():
-            got = _convert_pages(orders[oi], links)
+            got = _convert_pages(orders[oi], links, pl)
         E.reachable("converted")
         for d in orders[oi]:
             E.require(got[d] == _alias_expected(d, links[d]), f"depth {d}: alias link is not the relative path from that page")
